@@ -96,6 +96,8 @@ pub struct FsState {
     pub attempt: usize,
     pub next_seq: usize,
     pub dir_created: bool,
+    /// never inject the planned fault into flush/sync calls (end-to-end scenarios that need every batch to be retryable)
+    pub spare_sync: bool,
 }
 
 #[derive(Clone, Default)]
@@ -119,7 +121,10 @@ impl Fs {
             g.log.push(OpRec { idx, kind, path: pstr(path), len, wrote: 0, outcome: OpOutcome::AfterCrash, fault: None, gen, attempt });
             return Err(err("machine crashed"));
         }
-        let fault = g.plan.get(&idx).copied();
+        let mut fault = g.plan.get(&idx).copied();
+        if g.spare_sync && matches!(kind, OpKind::Flush | OpKind::SyncAll) {
+            fault = None;
+        }
         g.log.push(OpRec { idx, kind, path: pstr(path), len, wrote: 0, outcome: OpOutcome::Ok, fault, gen, attempt });
         if kind != OpKind::Write {
             match fault {
